@@ -538,8 +538,9 @@ class Exec:
         mask = a.slot(('mask',))
         img = a.slot(('image',))
         v = a.rng.pick(['to_image', 'cutout', 'cutout_nocopy', 'multiply',
-                        'get_values', 'get_values_mask', 'slices', 'array',
-                        'shape'])
+                        'multiply', 'get_values', 'get_values',
+                        'get_values_mask', 'get_values_mask', 'slices',
+                        'array', 'shape'])
         shape = a.rng.pick([(40, 50), (5, 5), (12, 9), (100, 3)])
         fill = a.rng.pick([0.0, np.nan, -1])
         if a.bad():
@@ -1390,7 +1391,7 @@ def reference_eval(arg):
 
 # ------------------------------------------------------ plan generation
 OPS = [('contains', 3), ('in', 1), ('sky_contains', 2), ('area_bbox', 2),
-       ('to_mask', 3), ('mask_apply', 3), ('bbox_ops', 1.5), ('to_sky', 3),
+       ('to_mask', 3), ('mask_apply', 4.5), ('bbox_ops', 1.5), ('to_sky', 3),
        ('to_pixel', 3), ('rotate', 2), ('copy', 2), ('combine', 1.5),
        ('as_artist', 2.5), ('mpl_kwargs', 1), ('eq', 1.5), ('repr', 1),
        ('polygon', 0.7), ('pixcoord', 2), ('serialize', 6), ('parse', 5),
